@@ -4,6 +4,18 @@ manifest stays valid while checks are added)."""
 import json
 
 claimed = {
+ "C04": dict(level="exploration", engine="I",
+   text="bounded-exhaustive product of message shapes around the MAC (attributes before/after with every padding residue, second MAC, FINGERPRINT), key lengths on both sides of the 64-byte block, MAC variants and every single-bit flip; on every decodable input the verdict of MessageIntegrity.Check must equal an independent RFC 2104/5389 oracle and AddTo must append exactly the oracle's value; release and debug",
+   note="attribute value lengths 0..5 (every residue mod 4); <=2 attributes before / <=2 after plus one 8/4 chain; the quantifier's 0..8 / 0..4 attribute counts are covered only by the chain",
+   technique="bounded exhaustive enumeration of message shapes, keys and bit flips against a reference HMAC", ref="DESIGN.md section 2 C04"),
+ "C05": dict(level="exploration", engine="I",
+   text="every fingerprinted message of the enumerated shapes is corrupted in every single bit and in every burst up to 8/12 bits with every interior pattern (longer bursts: 6 patterns); Fingerprint.Check must equal a bit-at-a-time CRC-32 oracle on every decodable input and must never pass a corruption that leaves FINGERPRINT the only such attribute; AddTo bytes equal the oracle",
+   note="bursts of 13..32 bits are covered with a pattern family only; message bodies <= 2 attributes + optional MESSAGE-INTEGRITY",
+   technique="bounded exhaustive enumeration of corruptions against a reference CRC", ref="DESIGN.md section 2 C05"),
+ "C09": dict(level="exploration", engine="I",
+   text="every setter on every value length / code on both sides of each limit x 5 preceding message contents, release and debug; acceptance, error class and snapshot-equality-on-error are checked on each; Build is checked against Build of the prefix before the first failing setter for every list of <=3 menu setters",
+   note="the accepted ErrorCode set is written out in the harness (17 exported constants)",
+   technique="exhaustive enumeration of the (small, complete) value domains against a stated acceptance rule", ref="DESIGN.md section 2 C09"),
  "C06": dict(level="exploration", engine="I",
    text="complete enumeration of the small value domains (all ports, all error codes 300..699, all text lengths up to the limit, every 16-bit type, list lengths 0..64) and per-byte-complete enumeration of address/transaction-ID bytes, each checked against independent RFC 5389 s15 encoders and decoders in both directions",
    note="address space is covered one byte position at a time (complete because XOR and copy are bytewise), not as a 2^128 product; trusts /verif/ref/attrs.go",
